@@ -79,8 +79,10 @@ pub fn hist(focus: Focus) -> impl Strategy<Value = Hist> {
         faults,
         prop::collection::vec(any::<u32>(), 0..12),
         any::<u64>(),
+        // a real clock moves between two readings inside one batch
+        prop_oneof![3 => Just(0u32), 2 => 1u32..5, 1 => 5u32..2000, 1 => 2000u32..40_000],
     )
-        .prop_map(|(cfg, pre, start_ms, steps, faults, image, rng_seed)| Hist { cfg, pre, start_ms, steps, faults, image, rng_seed })
+        .prop_map(|(cfg, pre, start_ms, steps, faults, image, rng_seed, tick_ms)| Hist { cfg, pre, start_ms, steps, faults, image, rng_seed, tick_ms })
 }
 
 /// All single-fault placements of a fault-free history: every fault kind at every op index.
@@ -136,6 +138,8 @@ pub fn check(h: &Hist, which: Prop, cx: &mut Cx) -> vcore::Res {
     cx.class_if(s.prefix_related_sibling, "prefix-related-sibling");
     cx.class_if(s.deletions > 0, "retention-deleted");
     cx.class_if(s.overflow, "sender-overflow");
+    cx.class_if(s.ticking_clock, "ticking-clock");
+    cx.class_if(s.period_changes_mid_batch, "period-changes-mid-batch");
     cx.class_if(h.cfg.max_files == 1, "max_files=1");
     cx.class_if(h.cfg.sep == 1, "two-byte-separator");
     cx.class_if(h.cfg.reuse, "reuse-on");
